@@ -56,6 +56,9 @@ pub struct Gen<'a> {
     pub resources: Vec<(String, String)>,
     pub max_depth: usize,
     pub counter: usize,
+    /// false while the body of a single-step macro is generated (an operator without an inverse
+    /// cannot stand there: the invocation may carry `inv`)
+    pub one_way_ok: bool,
 }
 
 impl Gen<'_> {
@@ -78,7 +81,11 @@ impl Gen<'_> {
             // a macro: single-step body or pipeline body
             let single = self.rng.chance(0.35);
             let mut steps = if single {
-                vec![self.step(depth + 1, true)]
+                let keep = self.one_way_ok;
+                self.one_way_ok = false;
+                let v = vec![self.step(depth + 1, true)];
+                self.one_way_ok = keep;
+                v
             } else {
                 // (now and then a pipeline of a single, directional step: "< addone")
                 let n = if self.rng.chance(0.15) { 1 } else { 2 + self.rng.below(3) };
@@ -141,6 +148,15 @@ impl Gen<'_> {
             s.body = Body::Elem(elementary(self.rng));
         }
         self.modifiers(&mut s, allow_omit);
+        if self.one_way_ok && allow_omit && matches!(s.body, Body::Elem(_)) && self.rng.chance(0.06) {
+            // an operator without an inverse as a step of a pipeline: never carrying `inv` itself
+            // (that is refused at instantiation), usually marked forward-only; where it is not,
+            // the inverse run of the pipeline reports 0 and leaves the data alone at that step
+            s.body = Body::Elem(self.rng.pick(&["curvature mean", "curvature gaussian ellps=intl", "gravity grs80"]).to_string());
+            s.inv = false;
+            s.omit_fwd = false;
+            s.omit_inv = self.rng.chance(0.7);
+        }
         s
     }
 }
@@ -344,6 +360,7 @@ pub fn run(h: &H) {
             resources: Vec::new(),
             max_depth,
             counter: 0,
+            one_way_ok: true,
         };
         let nsteps = 2 + g.rng.below(if idx % 7 == 0 { 7 } else { 3 });
         let steps: Vec<Step> = (0..nsteps).map(|_| g.step(0, true)).collect();
@@ -361,6 +378,11 @@ fn classes(h: &H, steps: &[Step]) {
             Body::Macro { single: true, .. } => "macro-single",
             Body::Macro { .. } => "macro-pipeline",
         };
+        if let Body::Elem(def) = &s.body {
+            if def.starts_with("curvature") || def.starts_with("gravity") {
+                h.class(if s.omit_inv { "one-way-step/forward-only" } else { "one-way-step/unmarked" });
+            }
+        }
         if s.inv {
             h.class(&format!("inv/{kind}"));
         }
